@@ -207,17 +207,23 @@ pub fn judge(expected: &Expected, got: &Outcome) -> Verdict {
     }
 }
 
+// percent of the generated programs that mix in dependently typed constructions (prog.rs section 5b)
+pub const DEPENDENT_SHARE: u8 = 35;
+
+// debugging knob: GPROG_DEP overrides the share
+fn dep_share() -> u8 { std::env::var("GPROG_DEP").ok().and_then(|s| s.parse().ok()).unwrap_or(DEPENDENT_SHARE) }
+
 pub fn cfg_mix(k: usize, rng: &mut Rng) -> GenCfg {
     let size = [8, 15, 25, 40, 60, 90][rng.below(6)];
     match k {
         // fully annotated, everything that gram is expected to handle
-        0 | 1 => GenCfg { size, allow_holes: false, allow_forward_refs: false, allow_nested_groups: true, allow_div: true, big_literals: true },
+        0 | 1 => GenCfg { size, allow_holes: false, allow_forward_refs: false, allow_nested_groups: true, allow_div: true, big_literals: true, dependent: dep_share() },
         // no division: the value is always a literal
-        2 => GenCfg { size, allow_holes: false, allow_forward_refs: false, allow_nested_groups: rng.chance(1, 2), allow_div: false, big_literals: rng.chance(1, 2) },
+        2 => GenCfg { size, allow_holes: false, allow_forward_refs: false, allow_nested_groups: rng.chance(1, 2), allow_div: false, big_literals: rng.chance(1, 2), dependent: dep_share() },
         // holes
-        3 | 4 => GenCfg { size, allow_holes: true, allow_forward_refs: false, allow_nested_groups: true, allow_div: rng.chance(1, 2), big_literals: true },
+        3 | 4 => GenCfg { size, allow_holes: true, allow_forward_refs: false, allow_nested_groups: true, allow_div: rng.chance(1, 2), big_literals: true, dependent: dep_share() },
         // forward references (known to get stuck in gram)
-        _ => GenCfg { size, allow_holes: rng.chance(1, 3), allow_forward_refs: true, allow_nested_groups: true, allow_div: false, big_literals: false },
+        _ => GenCfg { size, allow_holes: rng.chance(1, 3), allow_forward_refs: true, allow_nested_groups: true, allow_div: false, big_literals: false, dependent: dep_share() },
     }
 }
 
@@ -256,13 +262,16 @@ pub fn run(out: &mut Out, tier: &str, seed: u64) {
     let mut tree_print = Printer { left: 10 };
     let mut excused = Printer { left: 20 };
     let verbose = std::env::var("GPROG_VERBOSE").is_ok();
+    let trace = std::env::var("GPROG_TRACE").is_ok();
 
     for i in 0..n {
         // everything about program i derives from (seed, i)
         let mut rng = Rng::new(seed.wrapping_mul(0x1000_0000_01B3).wrapping_add(i as u64));
         let k = force_cfg.unwrap_or_else(|| rng.below(6));
         let cfg = cfg_mix(k, &mut rng);
+        if trace { eprintln!("#trace program {i} generating"); }
         let p = prog::gen_program(&mut rng, &cfg);
+        if trace { eprintln!("#trace program {i}: {}", prog::render_plain(&p.e)); }
         let style = style_mix(&mut rng);
         let rendered = prog::render_ex(&p.e, &style, &mut rng);
         let src = rendered.text.as_str();
@@ -308,6 +317,22 @@ pub fn run(out: &mut Out, tier: &str, seed: u64) {
             _ => out.stat("accepted"),
         }
         let excuse = if reassoc { Some("known-reassoc-defect") } else if fwd { Some("known-forward-ref") } else if holes { Some("holes") } else { None };
+        if p.features.contains(&"dependent-mode") { out.stat("dependent-mode"); if p.fully_annotated { out.stat("dependent-mode:fully-annotated"); } }
+        // a program with a deliberate near miss has to be rejected by the type checker
+        if let Some(why) = p.expect_reject {
+            out.stat("near-miss:programs");
+            out.stat(&format!("near-miss:{why}"));
+            match &run.outcome {
+                Outcome::TypeError(_) => out.stat("near-miss:rejected-by-type-checker(as expected)"),
+                Outcome::ParseError(_) if fwd => out.stat("near-miss:rejected-by-parser(known-forward-ref)"),
+                o => {
+                    out.stat(&format!("near-miss:NOT-REJECTED-BY-TYPE-CHECKER:{why}"));
+                    mismatches.show(&format!("near miss ({why}) not rejected by the type checker"), src, &p, o);
+                    out.hit("progstat", "near-miss-not-rejected", src, &format!("{why}: got {}", o.short()));
+                }
+            }
+            continue;
+        }
         match verdict {
             Verdict::Match => out.stat("value:matches"),
             Verdict::NoExpectation => out.stat("value:no-expectation"),
@@ -343,8 +368,12 @@ pub fn run(out: &mut Out, tier: &str, seed: u64) {
         let base_ok = verdict == Verdict::Match && run.tree_matches == Some(true);
         if base_ok {
             let plain = Style { newlines: style.newlines, redundant_parens: 0, comments: false };
-            for (kind, e2) in prog::rewrites(&p.e, &mut rng) {
+            let keep_types = p.features.contains(&"dep-recursive-type-family");
+            let mut rws = prog::rewrites_opt(&p.e, &mut rng, keep_types);
+            rws.extend(prog::rewrites_groups(&p.e, &mut rng, 3, keep_types));
+            for (kind, e2) in rws {
                 let r2 = prog::render_ex(&e2, &plain, &mut rng);
+                if trace { eprintln!("#trace rewrite {kind}: {}", r2.text); }
                 let run2 = run_pipeline(&r2.text, Some(&e2));
                 // the rewritten program has its own expectation, which must equal the original's
                 let exp2 = prog::reference_eval(&e2, 400_000);
@@ -374,9 +403,13 @@ pub fn run(out: &mut Out, tier: &str, seed: u64) {
             }
         }
 
-        // One ill-typed / ill-scoped perturbation: only counted.
+        // One ill-typed / ill-scoped perturbation: only counted. (Not for programs with a recursive
+        // type family: an ill-typed variant can take away its base case, and gram's checker, which
+        // goes on after the first diagnostic, then normalises for ever.)
+        if p.features.contains(&"dep-recursive-type-family") { out.stat("perturb:skipped(recursive-type-family)"); continue; }
         if let Some((kind, e3)) = prog::perturb(&p.e, &mut rng) {
             let text = prog::render_plain(&e3);
+            if trace { eprintln!("#trace perturb {kind}: {text}"); }
             let run3 = run_pipeline(&text, None);
             out.stat(&format!("perturb:{kind}:tried"));
             out.stat(&format!("perturb:{kind}:{}", match &run3.outcome {
